@@ -376,6 +376,70 @@ pub fn run(a: &Args) -> Batch {
         }
     }
     let _ = Src::Cte(String::new());
+    // the window -> wall link: windows hang from the wall block before them, so the link breaks when the
+    // first wall of the file is removed, or when the wall becomes a block kind that is not converted
+    // (UNDERGROUND-FLOOR). The document is extracted again from the implementation's parse of the edited text.
+    for p in &projects {
+        let parsed = match crate::guarded(std::panic::AssertUnwindSafe(|| p.src.parse())) {
+            Ok(Ok(d)) => d,
+            _ => continue,
+        };
+        let bdl = p.src.bdl();
+        let walls_with_windows: Vec<String> = {
+            let mut v: Vec<String> = vec![];
+            for w in &parsed.bdldata.windows {
+                if !v.contains(&w.wall) {
+                    v.push(w.wall.clone());
+                }
+            }
+            v
+        };
+        let first_wall = parsed.bdldata.walls.first().map(|w| w.name.clone());
+        let mut targets: Vec<(String, bool)> = vec![];
+        if let Some(fw) = &first_wall {
+            targets.push((fw.clone(), true));
+        }
+        for w in walls_with_windows.iter().take(if a.thorough { usize::MAX } else { 2 }) {
+            targets.push((w.clone(), false));
+            if Some(w) == first_wall.as_ref() {
+                continue;
+            }
+            targets.push((w.clone(), true));
+        }
+        for (wname, remove) in targets {
+            // locate the wall block whatever its kind
+            let lines: Vec<&str> = bdl.split_inclusive('\n').collect();
+            let start = match lines.iter().position(|l| {
+                let t = l.trim();
+                t.starts_with(&format!("\"{}\"", wname)) && ["EXTERIOR-WALL", "INTERIOR-WALL", "ROOF", "UNDERGROUND-WALL"].iter().any(|k| t.replace(' ', "").ends_with(&format!("={}", k)))
+            }) {
+                Some(i) => i,
+                None => continue,
+            };
+            let end = match (start..lines.len()).find(|&i| lines[i].trim() == "..") {
+                Some(i) => i,
+                None => continue,
+            };
+            let text: String = if remove {
+                lines.iter().enumerate().filter(|(i, _)| *i < start || *i > end).map(|(_, l)| *l).collect()
+            } else {
+                lines.iter().enumerate().map(|(i, l)| if i == start { format!("\"{}\" = UNDERGROUND-FLOOR\n", wname) } else { l.to_string() }).collect()
+            };
+            let src2 = p.src.with_bdl(&text);
+            let d2 = match crate::guarded(std::panic::AssertUnwindSafe(|| src2.parse())) {
+                Ok(Ok(d)) => d,
+                _ => continue, // rejected by the parser: not the converter's business
+            };
+            let b2 = match extract(&d2.bdldata, &text) {
+                Some(b) => b,
+                None => continue,
+            };
+            let out2 = hproj::convert(&src2);
+            *stats.entry(format!("mutants_Wall_{}", ["converted", "rejected", "crashed"][out2.class()])).or_default() += 1;
+            cases.push(case_of(&b2, &out2, true, false, json!({"project": p.name, "mutation": format!("{} wall \"{}\"", if remove { "remove" } else { "turn into an UNDERGROUND-FLOOR the" }, wname),
+                "outcome": format!("{:?}", out2).chars().take(160).collect::<String>(), "classes": if out2.class() == 2 { vec!["crash_on_broken_reference"] } else { vec![] }})));
+        }
+    }
     stats.insert("closure_models".into(), closure_cases.len());
     // closure of the converted models goes through the C14 saneness predicate `closed` of the Coq model
     for (name, mt) in closure_cases {
@@ -387,7 +451,7 @@ pub fn run(a: &Args) -> Batch {
         agree: "agree_C02x".into(),
         cases: cases.into_iter().map(|mut c| { if c.term.starts_with("(mkC02 ") { c.term = format!("(C02Doc {})", c.term); } else { c.term = c.term.replacen("(mkC02m ", "(C02Model ", 1); } c }).collect(),
         impl_findings: findings,
-        rule: "the 12 shipped .ctehexml projects (with the LIDER catalog) and the 56 legacy .cte files; for each, the name-level document extracted from the implementation's own parse, the conversion outcome, and every project obtained by renaming (header only) or removing one definition that another block refers to (materials, layers, constructions, gaps, glazings, frames, polygons, space / system conditions, yearly / weekly / daily schedules; spaces by rename), sampled per project in the quick tier, exhaustive in thorough; converted models are checked for referential closure by the Coq predicate `closed`; non-trivial = a mutated project; distinct by content hash".into(),
+        rule: "the 12 shipped .ctehexml projects (with the LIDER catalog) and the 56 legacy .cte files; for each, the name-level document extracted from the implementation's own parse, the conversion outcome, and every project obtained by renaming (header only) or removing one definition that another block refers to (materials, layers, constructions, gaps, glazings, frames, polygons, space / system conditions, yearly / weekly / daily schedules; spaces by rename), plus the window -> wall link (the first wall of the file removed, walls with windows removed or turned into UNDERGROUND-FLOOR blocks, with the document extracted again from the implementation's parse), sampled per project in the quick tier, exhaustive in thorough; converted models are checked for referential closure by the Coq predicate `closed`; non-trivial = a mutated project; distinct by content hash".into(),
         stats: json!(stats),
     }
 }
